@@ -220,6 +220,19 @@ def model_check(spec_dir, module, cfg, work, tag, actions=(), workers=16, timeou
     raise Broken("TLC failed on %s/%s (exit %d):\n%s" % (module, cfg, rc, out[-3000:]))
 
 
+def cap_histories(hists, n, label="exhaustive"):
+    """Bound an exhaustively enumerated set that has outgrown the time a check may take: keep every behaviour when
+    there are at most n, otherwise a sample of n that depends only on VERIF_SEED (different seeds explore different
+    parts; the evidence file says how many of how many were run)."""
+    if len(hists) <= n:
+        return hists, len(hists)
+    total = len(hists)
+    hs = sorted(hists, key=lambda h: json.dumps(h, sort_keys=True))
+    random.Random(SEED * 7919 + 13).shuffle(hs)
+    print("CAP %s set of %d behaviours sampled down to %d (seed %d)" % (label, total, n, SEED))
+    return hs[:n], total
+
+
 def generate(spec_dir, module, cfg, work, tag, marker="@@B", workers=8, simulate=None, timeout=1800, env=None,
              heap="8g", extra=None, cap=None):
     """P2: run TLC and collect the JSON lines it prints (Print with marker). Returns list of objects.
